@@ -1202,15 +1202,14 @@ func (r *seqRun) stepCreate(name string, op Op, hr handleRef, base *mnode, res *
 	// existing object must be untouched unless size was explicitly set
 	if cn != nil && cn.kind == mFile {
 		r.o.Checks++
-		now, _ := r.w.FS.ReadAll(child)
+		now, nowSize, _ := r.w.FS.ReadRange(child, 0, 1<<16) // sparse-safe: never materialise a huge file
 		if sizeSet && got {
 			cn.file.truncate(*op.SA.Size)
 		} else {
-			if uint64(len(now)) != beforeSize || !eqBytes(trunc(now, 1<<16), before) {
-				r.vio("C03.existing-file-data-destroyed", fmt.Sprintf("how=%d,replied_ok=%v", op.How, got), "%s: CREATE (how=%d, size not set) of existing file %q changed its data: size %d -> %d", name, op.How, child, beforeSize, len(now))
+			if uint64(nowSize) != beforeSize || !eqBytes(now, before) {
+				r.vio("C03.existing-file-data-destroyed", fmt.Sprintf("how=%d,replied_ok=%v", op.How, got), "%s: CREATE (how=%d, size not set) of existing file %q changed its data: size %d -> %d", name, op.How, child, beforeSize, nowSize)
 				// resynchronise the model so later operations are judged against what the backend now holds
-				cn.file = &fileModel{}
-				cn.file.write(0, now)
+				r.diverged = true
 			}
 		}
 		if got && op.SA.Mode != nil && op.How != nfsclient.Exclusive {
@@ -1224,9 +1223,7 @@ func (r *seqRun) stepCreate(name string, op Op, hr handleRef, base *mnode, res *
 			existed := cn != nil
 			r.vio("C01.create-size-not-applied", fmt.Sprintf("existing=%v", existed), "%s: CREATE(how=%d, size=%d) of %q replied OK but the backend file has size %d", name, op.How, *op.SA.Size, child, n.Size)
 			if cn != nil && cn.kind == mFile {
-				now, _ := r.w.FS.ReadAll(child)
-				cn.file = &fileModel{}
-				cn.file.write(0, now)
+				r.diverged = true
 			} else {
 				sz := uint64(n.Size)
 				op.SA.Size = &sz
